@@ -730,6 +730,17 @@ pub struct Trigger {
 
 thread_local! {
     static TRIGGER: std::cell::Cell<Option<Trigger>> = const { std::cell::Cell::new(None) };
+    /// multi-phase variant: after `watch` passed `site` for the nth time run (thread, steps) phases in order
+    static PHASES: std::cell::RefCell<Option<(usize, u32, usize, Vec<(usize, usize)>)>> = const { std::cell::RefCell::new(None) };
+}
+
+/// Directed schedule with several phases: `watch` runs alone until it has passed yield site `site` `nth` times;
+/// then each `(thread, steps)` of `phases` in order; then `watch` to its end; then everybody else.
+pub fn run_case_phased(p: &Prog, rng: &mut Rng, watch: usize, site: u32, nth: usize, phases: Vec<(usize, usize)>, manual: usize) -> (String, Vec<String>) {
+    PHASES.with(|t| *t.borrow_mut() = Some((watch, site, nth, phases)));
+    let r = run_case_tuned(p, rng, None, Some(manual));
+    PHASES.with(|t| *t.borrow_mut() = None);
+    r
 }
 
 pub fn run_case_triggered(p: &Prog, rng: &mut Rng, trig: Trigger, manual: usize) -> (String, Vec<String>) {
@@ -819,8 +830,48 @@ pub fn run_case_tuned(p: &Prog, rng: &mut Rng, script: Option<Vec<usize>>, manua
     drop(tx);
     let nt = p.threads.len();
     let trig = TRIGGER.with(|t| t.get());
+    let phased = PHASES.with(|t| t.borrow().clone());
     let res = match script {
         Some(s) => sched::run(bodies, enabled, 400_000, &mut policy::scripted(s)),
+        None if phased.is_some() => {
+            let (watch, site, nth, phases) = phased.unwrap();
+            let mut fired_at: Option<usize> = None;
+            let mut chooser = move |r: &[usize], _k: usize, trace: &[sched::Step]| {
+                let pos = |t: usize| r.iter().position(|&q| q == t);
+                if fired_at.is_none() {
+                    let seen = trace.iter().filter(|st| st.tid == watch && st.obs.iter().any(|o| o.0 == site)).count();
+                    if seen >= nth {
+                        fired_at = Some(trace.len());
+                    }
+                }
+                match fired_at {
+                    None => pos(watch).unwrap_or(0),
+                    Some(at) => {
+                        // steps taken since the trigger, per phase in order
+                        let mut idx = at;
+                        for &(t, n) in &phases {
+                            let mut taken = 0;
+                            while idx < trace.len() && taken < n {
+                                if trace[idx].tid == t {
+                                    taken += 1;
+                                    idx += 1;
+                                } else {
+                                    break;
+                                }
+                            }
+                            if taken < n {
+                                if let Some(i) = pos(t) {
+                                    return i;
+                                }
+                                // that thread finished early: next phase
+                            }
+                        }
+                        pos(watch).unwrap_or(0)
+                    }
+                }
+            };
+            sched::run_observed(bodies, enabled, 400_000, &mut chooser)
+        }
         None if trig.is_some() => {
             let tg = trig.unwrap();
             let mut fired_at: Option<usize> = None;
@@ -1495,6 +1546,35 @@ fn run_op(_tid: usize, op: &[i64], slots: &mut Vec<Slot>, guards: &mut Vec<Guard
 
 /// Hand-written choreographies (program + schedule script), run before the random stream.
 /// Each is a regression witness of a defect found by this framework or a targeted attack on a property.
+/// Candidate finding F6: a link timestamp exactly 14 epochs old aliases to "curr + 2" in the cascade's modular
+/// window, wins the merge and overwrites a fresh stamp of a shared child; a second cascade that read the epoch one
+/// step earlier decodes that residue as ancient, brings the count to zero and the child is reclaimed at once
+/// although a pinned reader loaded it from a cell that was unlinked only one epoch ago.
+/// objects: 1 = P_A, 2 = P_B, 3 = o.  `age` = epochs between storing P_A's link and cascade A (14 = the alias).
+pub fn f6_program(age: usize) -> (Prog, usize, u32, usize, Vec<(usize, usize)>) {
+    assert!(age >= 13);
+    let t0 = (
+        vec![(1u8, 1usize), (1u8, 2usize), (1u8, 3usize)],
+        vec![
+            vec![20], vec![6, 2, 5], vec![6, 2, 6], vec![31, 1, 0, 0, 5], vec![21], // P_A.next := o   (epoch e0)
+            vec![25, 1],
+            vec![20], vec![31, 1, 1, 0, 6], vec![31, 0, 0, 0, 2], vec![21], // P_B.next := o, cell0 := o   (e0+1)
+            vec![25, (age - 5) as i64], // -> e0+age-4
+            vec![7, 1],   // drop P_B at c-4
+            vec![25, 1],  // seal, -> c-3
+            vec![7, 0],   // drop P_A at c-3
+            vec![25, 1],  // seal, -> c-2
+            vec![25, 1],  // -> c-1: P_B's try_destruct runs here (this thread is cascade B) <- trigger inside
+            vec![25, 3],
+        ],
+    );
+    let t1 = (vec![], vec![vec![20], vec![30, 0, 0, 0, 0], vec![21], vec![25, 3]]); // reader: holds the Snapshot, never touches it again
+    let t2 = (vec![], vec![vec![20], vec![24, 1], vec![32, 0, 0, 0, 1, 1], vec![21], vec![7, 1]]); // unlinker
+    let t3 = (vec![], vec![vec![25, 1]]); // advances to c and runs cascade A
+    let prog = Prog { g0: 3, ncells: 1, nobj: 3, threads: vec![t0, t1, t2, t3] };
+    (prog, 0, 117, 1, vec![(1, 4), (2, 30), (3, 60)])
+}
+
 /// directed choreographies (schedule given by a trigger instead of a fixed script)
 pub fn corpus_triggered() -> Vec<(&'static str, Prog, Trigger, usize)> {
     let mut out = vec![];
